@@ -60,6 +60,25 @@ def rule_C08(ctx):
         textsrc = [s for s in seen if s in ("repr::Repr::from_str", "repr::Repr::as_str", "repr::Repr::as_bytes", "LeanString::as_str")]
         ctx.ob("C08-nocopy", root, "text-copy", not copies and not heapctor and not textsrc, how="no copy primitive, heap constructor or text view reachable",
                detail="clone path can copy text: %s" % ", ".join([e.name + " in " + e.src for e in copies[:3]] + heapctor[:3] + textsrc[:3]))
+    # clone_from really replaces the target by a shallow clone of the source on every path
+    cf = roots.get("clone_from")
+    if cf and cf in F.bodies:
+        b = F.bodies[cf]
+        import r_retain
+        rel = [bb for bb, t in b.calls() if callee_name(t) == "repr::Repr::replace_inner"]
+        ctx.ob("C08-clone_from", cf, "must-replace", bool(rel) and r_retain.must_pass(b, set(rel)), how="every path through clone_from passes replace_inner(self, shallow clone of source)",
+               detail="a path through clone_from returns without replacing the target: the target is not a copy of the source afterwards (e.g. handles that share a buffer but carry different lengths)")
+        for bb in rel:
+            t = b.term(bb)
+            a0 = describe(b, b.origin_operand(t["args"][0]))
+            a1 = describe(b, b.origin_operand(t["args"][1]))
+            ctx.ob("C08-clone_from", cf, "replace-args", a0 == "&*p1.0" and a1 == "repr::Repr::make_shallow_clone(&*p2.0)", how="replace_inner(&mut self.0, source.0.make_shallow_clone())",
+                   detail="clone_from replaces %s by %s" % (a0, a1))
+    cl = roots.get("clone")
+    if cl and cl in F.bodies:
+        b = F.bodies[cl]
+        ds = [describe(b, ("call", bb) if si == "term" else b.origin_rvalue(x)) for (bb, si, x) in b.defs.get(0, [])]
+        ctx.ob("C08-clone_from", cl, "clone=shallow", ds == ["LeanString::LeanString{repr::Repr::make_shallow_clone(&*p1.0)}"], how="clone() = LeanString(self.0.make_shallow_clone())", detail="clone() returns %s" % ds)
     # the value returned by make_shallow_clone is a bitwise read of the receiver on every path
     b = F.bodies.get("repr::Repr::make_shallow_clone")
     if b:
